@@ -150,5 +150,5 @@ def now() -> float:
 def jdump(obj, path: pathlib.Path):
     path.parent.mkdir(parents=True, exist_ok=True)
     tmp = path.with_suffix(path.suffix + ".tmp")
-    tmp.write_text(json.dumps(obj, indent=1, sort_keys=True, default=str))
+    tmp.write_text(json.dumps(obj, indent=1, default=str))
     tmp.replace(path)
